@@ -577,6 +577,7 @@ static cfg_print_filter_func_t pffs[NPFF] = { pff0, pff1, pff2, pff3 };
 #define DM_MOD 1
 #define DM_RESET 2
 #define DM_ANNOT 4
+#define DM_NOSECMOD 8	/* no MODIFIED mark on section options */
 
 static void dump_sec(cfg_t *sec, int mode);
 
@@ -586,7 +587,7 @@ static void dump_opt(cfg_opt_t *o, int mode)
 	static const char tc[] = "?ifsbSFpc";
 	enc(out, o->name);
 	fprintf(out, "=%c%s[%u]", tc[o->type], (o->flags & CFGF_LIST) ? "L" : "", n);
-	if ((mode & DM_MOD) && (o->flags & CFGF_MODIFIED)) fputc('M', out);
+	if ((mode & DM_MOD) && (o->flags & CFGF_MODIFIED) && !((mode & DM_NOSECMOD) && o->type == CFGT_SEC)) fputc('M', out);
 	if ((mode & DM_RESET) && (o->flags & CFGF_RESET)) fputc('R', out);
 	fputc('(', out);
 	for (i = 0; i < n; i++) {
